@@ -1057,3 +1057,376 @@ Proof.
   rewrite G. destruct (has_limit q); [|reflexivity].
   f_equal. apply map_ext. intros g. now rewrite l2_limit_rows.
 Qed.
+
+(* ------------------------------------------------------------------------------------------------ *)
+(* 9. the descending pipeline = today's reference (Model.agg_group true): mirror symmetry             *)
+Lemma neg_keys_invol : forall {X} (l : list (Z * X)), neg_keys (neg_keys l) = l.
+Proof.
+  intros X l. unfold neg_keys. rewrite map_map. rewrite <- (map_id l) at 2. apply map_ext.
+  intros [k x]. cbn [fst snd]. now rewrite Z.opp_involutive.
+Qed.
+
+Lemma neg_keys_rev : forall {X} (l : list (Z * X)), neg_keys (rev l) = rev (neg_keys l).
+Proof. intros. unfold neg_keys. apply map_rev. Qed.
+
+Lemma sorted_lt_app : forall l x, Sorted Z.lt l -> Forall (fun y => y < x) l -> Sorted Z.lt (l ++ [x]).
+Proof.
+  induction l as [|y l IH]; intros x S F; cbn [app]; [repeat constructor|].
+  inversion S as [|? ? S1 H1]; subst. inversion F as [|? ? Hy F1]; subst.
+  constructor; [now apply IH|]. destruct l as [|z l]; cbn [app]; constructor; [exact Hy | now inversion H1].
+Qed.
+
+Lemma sorted_opp_rev : forall l, Sorted Z.lt l -> Sorted Z.lt (map Z.opp (rev l)).
+Proof.
+  induction l as [|x l IH]; intros S; [constructor|].
+  apply Sorted_StronglySorted in S; [|exact zlt_trans]. inversion S as [|? ? SS F]; subst.
+  cbn [rev]. rewrite map_app. cbn [map]. apply sorted_lt_app.
+  - apply IH. now apply StronglySorted_Sorted.
+  - apply Forall_forall. intros y Hy. apply in_map_iff in Hy. destruct Hy as [z [<- Hz]].
+    apply in_rev in Hz. rewrite Forall_forall in F. specialize (F _ Hz). cbn beta in *. lia.
+Qed.
+
+Lemma zkeys_opp : forall l, zkeys (map Z.opp l) = map Z.opp (rev (zkeys l)).
+Proof.
+  intros l. apply zsorted_unique.
+  - apply zkeys_sorted.
+  - apply sorted_opp_rev, zkeys_sorted.
+  - intros k. rewrite zkeys_in, !in_map_iff. split.
+    + intros [x [<- Hx]]. exists x. split; [reflexivity|]. rewrite <- in_rev. exact (proj2 (zkeys_in x l) Hx).
+    + intros [x [<- Hx]]. exists x. split; [reflexivity|]. rewrite <- in_rev in Hx. exact (proj1 (zkeys_in x l) Hx).
+Qed.
+
+Lemma rows_at_dkey : forall q ms b, rows_at_k (dkey q) q ms (- b) = rows_at q ms b.
+Proof.
+  intros. unfold rows_at, rows_at_k, dkey. apply filter_ext. intros r.
+  destruct (Z.eqb_spec (- bkey q (fst r)) (- b)); destruct (Z.eqb_spec (bkey q (fst r)) b); try reflexivity; lia.
+Qed.
+
+Lemma canonp_dkey : forall q aggs ms, canonp_k (dkey q) q aggs ms = neg_keys (rev (canonp q aggs ms)).
+Proof.
+  intros. unfold canonp, canonp_k, gkeys_k, dkey.
+  rewrite <- (map_map (fun r : row => bkey q (fst r)) Z.opp), zkeys_opp, map_map.
+  fold (gkeys_k (bkey q) q aggs ms). unfold neg_keys. rewrite <- map_rev, map_map. apply map_ext.
+  intros b. cbn [fst snd]. f_equal. f_equal. apply rows_at_dkey.
+Qed.
+
+Lemma finalize_rev : forall aggs l, finalize aggs (rev l) = rev (finalize aggs l).
+Proof. intros. unfold finalize. apply map_rev. Qed.
+
+(* -- the fill operator under the mirror t -> -t *)
+Definition mir (l : list arow) : list arow := map (fun r : arow => (- fst r, snd r)) l.
+
+Lemma mir_invol : forall l, mir (mir l) = l.
+Proof.
+  intros l. unfold mir. rewrite map_map. rewrite <- (map_id l) at 2. apply map_ext.
+  intros [t cs]. cbn [fst snd]. now rewrite Z.opp_involutive.
+Qed.
+
+Lemma mir_app : forall a b, mir (a ++ b) = mir a ++ mir b.
+Proof. intros. unfold mir. apply map_app. Qed.
+
+Lemma mir_rev : forall l, mir (rev l) = rev (mir l).
+Proof. intros. unfold mir. apply map_rev. Qed.
+
+Lemma gap_rows_mir : forall n t i m aggs prev, gap_rows n t (- i) m aggs prev = mir (gap_rows n (- t) i m aggs prev).
+Proof.
+  induction n as [|n IH]; intros t i m aggs prev; [reflexivity|].
+  cbn [gap_rows mir map fst snd]. rewrite Z.opp_involutive. f_equal.
+  rewrite IH. unfold mir. do 2 f_equal. lia.
+Qed.
+
+Lemma run_fill_mir : forall i m aggs rows next prev,
+  run (fill_step (- i) m aggs) (next, prev) rows =
+  let r := run (fill_step i m aggs) (- next, prev) (mir rows) in ((- fst (fst r), snd (fst r)), mir (snd r)).
+Proof.
+  intros i m aggs. induction rows as [|[t cs] rows IH]; intros next prev.
+  - cbn [run mir map fst snd]. now rewrite Z.opp_involutive.
+  - cbn [mir map fst snd]. fold (mir rows). cbn [run fill_step].
+    destruct (fill_cells m aggs prev cs) as [out prev2].
+    rewrite IH. cbn zeta. replace (- (t + - i)) with (- t + i) by lia.
+    destruct (run (fill_step i m aggs) (- t + i, prev2) (mir rows)) as [[n2 p2] o2]. cbn [fst snd].
+    f_equal. rewrite !mir_app. f_equal. cbn [mir map fst snd]. rewrite Z.opp_involutive.
+    f_equal. rewrite gap_rows_mir. unfold mir. do 3 f_equal.
+    destruct (Z.eq_dec i 0) as [->|Hi]; [change (- 0) with 0; now rewrite !Zdiv_0_r|].
+    replace (t - next) with (- (- t - - next)) by lia. now rewrite Z.div_opp_opp.
+Qed.
+
+Lemma concat_map_mir : forall chunks, concat (map mir chunks) = mir (concat chunks).
+Proof. induction chunks as [|c cs IH]; [reflexivity|]. cbn [map concat]. now rewrite IH, mir_app. Qed.
+
+Lemma fill_group_chunks_mir : forall i f l m aggs chunks,
+  fill_group_chunks (- i) f l m aggs chunks = mir (fill_group_chunks i (- f) (- l) m aggs (map mir chunks)).
+Proof.
+  intros. unfold fill_group_chunks. rewrite !run_chunks_concat, concat_map_mir, run_fill_mir. cbn zeta.
+  destruct (run (fill_step i m aggs) (- f, null_cells aggs) (mir (concat chunks))) as [[n2 p2] o2]. cbn [fst snd].
+  rewrite mir_app. f_equal. unfold fill_finish. rewrite gap_rows_mir, Z.opp_involutive.
+  assert (E : (l - - n2) / - i = (- l - n2) / i).
+  { destruct (Z.eq_dec i 0) as [->|Hi]; [change (- 0) with 0; now rewrite !Zdiv_0_r|].
+    replace (l - - n2) with (- (- l - n2)) by lia. now rewrite Z.div_opp_opp. }
+  now rewrite E.
+Qed.
+
+Lemma cut_map : forall {X Y} (f : X -> Y) sizes (l : list X), cut sizes (map f l) = map (map f) (cut sizes l).
+Proof.
+  intros X Y f. induction sizes as [|n sizes IH]; intros l.
+  - destruct l; reflexivity.
+  - destruct l as [|x l]; [reflexivity|].
+    change (cut (n :: sizes) (map f (x :: l))) with (firstn (S n) (map f (x :: l)) :: cut sizes (skipn (S n) (map f (x :: l)))).
+    change (cut (n :: sizes) (x :: l)) with (firstn (S n) (x :: l) :: cut sizes (skipn (S n) (x :: l))).
+    cbn [map]. rewrite <- IH. f_equal; [apply (firstn_map f (S n) (x :: l)) | now rewrite <- (skipn_map f (S n) (x :: l))].
+Qed.
+
+(* -- enumeration of the buckets, mirrored *)
+Lemma lookup_app : forall t (a b : list arow),
+  lookup_bucket t (a ++ b) = match lookup_bucket t a with Some c => Some c | None => lookup_bucket t b end.
+Proof.
+  intros t. induction a as [|[t' cs] a IH]; intros b; [reflexivity|].
+  cbn [app lookup_bucket]. destruct (t =? t'); [reflexivity | apply IH].
+Qed.
+
+Lemma lookup_mir : forall t l, lookup_bucket (- t) (mir l) = lookup_bucket t l.
+Proof.
+  intros t. induction l as [|[t' cs] l IH]; [reflexivity|].
+  cbn [mir map lookup_bucket fst snd]. fold (mir l). rewrite IH.
+  destruct (Z.eqb_spec (- t) (- t')); destruct (Z.eqb_spec t t'); try reflexivity; lia.
+Qed.
+
+Lemma lookup_rev : forall t (l : list arow), Sorted key_lt l -> lookup_bucket t (rev l) = lookup_bucket t l.
+Proof.
+  intros t. induction l as [|[t' cs] l IH]; intros S; [reflexivity|].
+  apply Sorted_StronglySorted in S; [|exact key_lt_trans]. inversion S as [|? ? SS F]; subst.
+  cbn [rev lookup_bucket]. rewrite lookup_app, IH by now apply StronglySorted_Sorted.
+  cbn [lookup_bucket]. destruct (t =? t') eqn:E; [|destruct (lookup_bucket t l); reflexivity].
+  apply Z.eqb_eq in E. subst t'. rewrite (lookup_none t l); [reflexivity|].
+  intros r Hr. rewrite Forall_forall in F. specialize (F r Hr). unfold key_lt in F. cbn [fst] in F. lia.
+Qed.
+
+Definition bucket_row (aggs : list aggcol) (pre : list arow) (t : Z) : arow :=
+  (t, match lookup_bucket t pre with Some cs => cs | None => null_cells aggs end).
+
+Lemma enum_snoc : forall n s i aggs pre,
+  enumerate_buckets (S n) s i aggs pre = enumerate_buckets n s i aggs pre ++ [bucket_row aggs pre (s + i * Z.of_nat n)].
+Proof.
+  induction n as [|n IH]; intros s i aggs pre.
+  - cbn [enumerate_buckets app]. unfold bucket_row. replace (s + i * Z.of_nat 0) with s by (cbn [Z.of_nat]; lia). reflexivity.
+  - change (enumerate_buckets (S (S n)) s i aggs pre) with (bucket_row aggs pre s :: enumerate_buckets (S n) (s + i) i aggs pre).
+    rewrite IH. change (enumerate_buckets (S n) s i aggs pre) with (bucket_row aggs pre s :: enumerate_buckets n (s + i) i aggs pre).
+    cbn [app]. f_equal. f_equal. f_equal. unfold bucket_row. replace (s + i + i * Z.of_nat n) with (s + i * Z.of_nat (S n)) by lia. reflexivity.
+Qed.
+
+Lemma enum_mir_rev : forall n first i aggs pre, Sorted key_lt pre ->
+  mir (rev (enumerate_buckets n first i aggs pre)) =
+  enumerate_buckets n (- (first + i * Z.of_nat n - i)) i aggs (mir (rev pre)).
+Proof.
+  induction n as [|n IH]; intros first i aggs pre S; [reflexivity|].
+  change (enumerate_buckets (Datatypes.S n) first i aggs pre) with (bucket_row aggs pre first :: enumerate_buckets n (first + i) i aggs pre).
+  rewrite (enum_snoc n (- (first + i * Z.of_nat (Datatypes.S n) - i)) i aggs (mir (rev pre))).
+  cbn [rev]. rewrite mir_app, (IH (first + i) i aggs pre S).
+  replace (first + i + i * Z.of_nat n - i) with (first + i * Z.of_nat (Datatypes.S n) - i) by lia.
+  f_equal. unfold bucket_row. cbn [mir map fst snd].
+  replace (- (first + i * Z.of_nat (Datatypes.S n) - i) + i * Z.of_nat n) with (- first) by lia.
+  now rewrite lookup_mir, lookup_rev.
+Qed.
+
+(* -- cell-wise fill commutes with the mirror; without fill(previous) also with the reversal *)
+Lemma fill_rows_mir : forall m aggs l prev, fill_rows m aggs prev (mir l) = mir (fill_rows m aggs prev l).
+Proof.
+  intros m aggs. induction l as [|[t cs] l IH]; intros prev; [reflexivity|].
+  cbn [mir map fill_rows fst snd]. fold (mir l). destruct (fill_cells m aggs prev cs) as [out prev2].
+  cbn [mir map fst snd]. fold (mir (fill_rows m aggs prev2 l)). now rewrite IH.
+Qed.
+
+Definition not_prev (m : fillmode) : bool := match m with FillPrev => false | _ => true end.
+
+Lemma fill_cells_indep : forall m (al : list aggcol) p p' cs, not_prev m = true ->
+  length p = length al -> length p' = length al ->
+  fst (fill_cells m al p cs) = fst (fill_cells m al p' cs).
+Proof.
+  intros m. induction al as [|a al IH]; intros p p' cs Hm Hp Hp'; [reflexivity|].
+  destruct p as [|x p]; [discriminate|]. destruct p' as [|x' p']; [discriminate|].
+  destruct cs as [|c cs]; [reflexivity|]. cbn [fill_cells].
+  specialize (IH p p' cs Hm). destruct (fill_cells m al p cs) as [o1 q1]. destruct (fill_cells m al p' cs) as [o2 q2].
+  cbn [fst] in IH. rewrite IH by (cbn in *; lia).
+  destruct (is_null c); [|reflexivity]. destruct m; try reflexivity. discriminate.
+Qed.
+
+Lemma fill_rows_map : forall m aggs l prev, not_prev m = true -> length prev = length aggs ->
+  Forall (fun r : arow => length (snd r) = length aggs) l ->
+  fill_rows m aggs prev l = map (fun r : arow => (fst r, fst (fill_cells m aggs (null_cells aggs) (snd r)))) l.
+Proof.
+  intros m aggs. induction l as [|[t cs] l IH]; intros prev Hm Hp F; [reflexivity|].
+  inversion F as [|? ? Hc F']; subst. cbn [fill_rows map fst snd] in *.
+  pose proof (fill_cells_len m aggs prev cs Hp Hc) as L.
+  assert (N : length (null_cells aggs) = length aggs) by (unfold null_cells; now rewrite map_length).
+  rewrite <- (fill_cells_indep m aggs prev (null_cells aggs) cs Hm Hp N).
+  destruct (fill_cells m aggs prev cs) as [out prev2]. cbn [fst snd] in *. f_equal. now apply IH.
+Qed.
+
+Lemma fill_rows_rev : forall m aggs l, not_prev m = true ->
+  Forall (fun r : arow => length (snd r) = length aggs) l ->
+  fill_rows m aggs (null_cells aggs) (rev l) = rev (fill_rows m aggs (null_cells aggs) l).
+Proof.
+  intros m aggs l Hm F.
+  assert (N : length (null_cells aggs) = length aggs) by (unfold null_cells; now rewrite map_length).
+  rewrite !fill_rows_map; try assumption; [now rewrite map_rev|].
+  apply Forall_forall. intros r Hr. apply in_rev in Hr. rewrite Forall_forall in F. now apply F.
+Qed.
+
+Lemma enum_lengths : forall n t i aggs pre, Forall (fun r : arow => length (snd r) = length aggs) pre ->
+  Forall (fun r : arow => length (snd r) = length aggs) (enumerate_buckets n t i aggs pre).
+Proof.
+  induction n as [|n IH]; intros t i aggs pre F; [constructor|].
+  cbn [enumerate_buckets]. constructor; [|now apply IH].
+  cbn [snd]. destruct (lookup_bucket t pre) as [cs|] eqn:E; [|unfold null_cells; now rewrite map_length].
+  clear IH. induction pre as [|[t' c'] pre IHp]; [discriminate|].
+  inversion F; subst. cbn [lookup_bucket] in E. destruct (t =? t'); [injection E as <-; assumption | now apply IHp].
+Qed.
+
+Lemma sorted_key_lt_snoc : forall (l : list arow) x, Sorted key_lt l -> Forall (fun r : arow => fst r < fst x) l ->
+  Sorted key_lt (l ++ [x]).
+Proof.
+  induction l as [|y l IHl]; intros x S G; cbn [app]; [repeat constructor|].
+  inversion S as [|? ? S1 H1]; subst. inversion G as [|? ? Gy G1]; subst.
+  constructor; [now apply IHl|]. destruct l as [|z l]; cbn [app]; constructor; [exact Gy | now inversion H1].
+Qed.
+
+Lemma sorted_mir_rev : forall l : list arow, Sorted key_lt l -> Sorted key_lt (mir (rev l)).
+Proof.
+  induction l as [|[t cs] l IH]; intros S; [constructor|].
+  apply Sorted_StronglySorted in S; [|exact key_lt_trans]. inversion S as [|? ? SS F]; subst.
+  cbn [rev]. rewrite mir_app. cbn [mir map fst snd]. fold (mir (rev l)).
+  apply sorted_key_lt_snoc; [apply IH; now apply StronglySorted_Sorted|].
+  apply Forall_forall. intros r Hr. unfold mir in Hr. apply in_map_iff in Hr. destruct Hr as [r0 [<- H0]].
+  apply in_rev in H0. rewrite Forall_forall in F. specialize (F _ H0). unfold key_lt in F. cbn [fst] in *. lia.
+Qed.
+
+Lemma cut_mir : forall sizes l, map mir (cut sizes l) = cut sizes (mir l).
+Proof. intros. unfold mir. symmetry. apply cut_map. Qed.
+
+Lemma agg_group_noiv : forall cur q aggs ms, (q_interval q =? 0) = true ->
+  agg_group cur q aggs ms =
+  match canonp q aggs ms with
+  | [] => []
+  | (_, pr) :: _ => [(l2_time0 q aggs pr, fin_row aggs pr)]
+  end.
+Proof.
+  intros cur q aggs ms E. unfold agg_group. cbv zeta. rewrite E.
+  assert (C : map (fun c : aggfn * nat * Z * list point => agg_cell (fst (fst (fst c))) (snd c)) (agg_cols_of q aggs ms) = cells0 q aggs ms).
+  { unfold agg_cols_of, cells0. rewrite map_map. reflexivity. }
+  rewrite C, (cells0_null q aggs ms). unfold canonp, canonp_k. fold (gkeys q aggs ms). rewrite (gkeys_0 q aggs ms E).
+  destruct (existsb (hvr aggs) (allrows q ms)) eqn:Ex; cbn [negb map]; [|reflexivity].
+  change (rows_at_k (bkey q) q ms 0) with (rows_at q ms 0).
+  rewrite (rows_at_0 q ms E), (fin_row_cells0 q aggs ms). f_equal. f_equal.
+  unfold l2_time0, agg_cols_of, colfold.
+  destruct aggs as [|[[fn f] sc] [|b al]]; cbn [map]; try reflexivity.
+  unfold fn_of, fld_of. cbn [fst snd]. rewrite <- points_of_rows.
+  destruct (points_of q f ms) as [|p l] eqn:Ep; [destruct (is_selector fn); reflexivity|].
+  destruct (is_selector fn) eqn:Es; [|rewrite pfold_explicit; reflexivity].
+  destruct (pfold fn (p :: l)) as [a|] eqn:Ef; [|rewrite pfold_explicit in Ef; discriminate].
+  now rewrite (pfold_best fn p l a Es Ef).
+Qed.
+
+Lemma canonp_noiv_short : forall q aggs ms, (q_interval q =? 0) = true ->
+  canonp q aggs ms = [] \/ exists pr, canonp q aggs ms = [(0, pr)].
+Proof.
+  intros q aggs ms E. unfold canonp, canonp_k. fold (gkeys q aggs ms). rewrite (gkeys_0 q aggs ms E).
+  destruct (existsb (hvr aggs) (allrows q ms)); cbn [map]; [right; eauto | now left].
+Qed.
+
+Section ComposeDesc.
+  Variable q : query.
+  Variable aggs : list aggcol.
+  Variable ms : list series.
+  Notation i := (q_interval q).
+
+  Theorem l2_agg_group_desc_lemma : forall parts sizes sizes2,
+    q_desc q = true -> 0 <= i -> Permutation (concat parts) ms ->
+    l2_agg_group_desc q aggs parts sizes sizes2 = agg_group true q aggs ms.
+  Proof.
+    intros parts sizes sizes2 Hd Hi P. unfold l2_agg_group_desc.
+    rewrite (l2_partials_canon (dkey q) q aggs parts ms sizes P), canonp_dkey.
+    destruct (i =? 0) eqn:E.
+    - rewrite (agg_group_noiv true q aggs ms E).
+      destruct (canonp_noiv_short q aggs ms E) as [->|[pr ->]]; reflexivity.
+    - assert (Hpos : 0 < i) by (apply Z.eqb_neq in E; lia).
+      rewrite neg_keys_invol, finalize_rev.
+      pose proof (pre_rows_ok q aggs ms Hpos) as F. pose proof (pre_count q aggs ms Hpos) as Hc.
+      assert (Srt : Sorted key_lt (finalize aggs (canonp q aggs ms))).
+      { apply finalize_ssorted, map_keys_ssorted, zkeys_sorted. }
+      rewrite (finalize_canonp q aggs ms E) in *.
+      unfold agg_group. cbv zeta. rewrite E.
+      destruct (prefill_rows i (agg_cols_of q aggs ms)) as [|x pre] eqn:Epre; [reflexivity|].
+      specialize (Hc ltac:(discriminate)).
+      set (blo := bucket i (lo_of q)) in *. set (bhi := bucket i (hi_of q)) in *.
+      set (n := Z.to_nat ((bhi - blo) / i + 1)) in *.
+      set (all := enumerate_buckets n blo i aggs (x :: pre)).
+      assert (NE : rev (x :: pre) <> []).
+      { cbn [rev]. intros H. apply app_eq_nil in H. destruct H; discriminate. }
+      destruct (rev (x :: pre)) as [|y rp] eqn:Er; [congruence|]. rewrite <- Er. clear NE.
+      rewrite Hd. cbn [andb].
+      (* the operator over the mirrored rows *)
+      assert (G : forall m, fill_group_chunks (- i) bhi blo m aggs (cut sizes2 (rev (x :: pre))) =
+                       fill_rows m aggs (null_cells aggs) (rev all)).
+      { intros m. rewrite fill_group_chunks_mir, cut_mir.
+        assert (H1 : fill_group_chunks i (- bhi) (- blo) m aggs (cut sizes2 (mir (rev (x :: pre)))) =
+                     fill_rows m aggs (null_cells aggs) (enumerate_buckets n (- bhi) i aggs (mir (rev (x :: pre))))).
+        { apply (fill_stage_lemma i Hpos).
+          - now apply sorted_mir_rev.
+          - apply Forall_forall. intros r Hr. unfold mir in Hr. apply in_map_iff in Hr. destruct Hr as [r0 [<- H0]].
+            apply in_rev in H0. rewrite Forall_forall in F. destruct (F _ H0) as [[g Hg] [Hle Hlen]].
+            cbn [fst snd]. split; [|split; [|exact Hlen]].
+            + assert (g < n)%nat by nia. exists (n - 1 - g)%nat. rewrite Hg.
+              rewrite !Nat2Z.inj_sub by lia. change (Z.of_nat 1) with 1. nia.
+            + nia.
+          - lia. }
+        assert (H2 : enumerate_buckets n (- bhi) i aggs (mir (rev (x :: pre))) = mir (rev all)).
+        { unfold all. etransitivity; [|symmetry; apply (enum_mir_rev n blo i aggs (x :: pre) Srt)]. f_equal. lia. }
+        rewrite H1, H2. now rewrite fill_rows_mir, mir_invol. }
+      assert (L : Forall (fun r : arow => length (snd r) = length aggs) all).
+      { apply enum_lengths. eapply Forall_impl; [|exact F]. cbn. intros r [_ [_ H]]. exact H. }
+      destruct (q_fill q) eqn:Ef; cbn [andb].
+      + reflexivity.
+      + rewrite G. fold blo bhi n all. now apply fill_rows_rev.
+      + rewrite G. fold blo bhi n all. now apply fill_rows_rev.
+      + rewrite G. reflexivity.
+  Qed.
+End ComposeDesc.
+
+(* ------------------------------------------------------------------------------------------------ *)
+(* 10. the whole answer, both orders                                                                   *)
+Theorem l2_eval_lemma : forall db q pl,
+  0 <= q_interval q ->
+  (forall k, In k (keys_of q db) -> Permutation (concat (pl_parts pl k)) (members q db k)) ->
+  l2_eval db q pl = eval_gen true db q.
+Proof.
+  intros db q pl Hi HP. unfold l2_eval, eval_gen.
+  assert (G : map (fun k => (k, l2_group_rows q pl k)) (keys_of q db) =
+              map (fun k => (k, group_rows true q (members q db k))) (keys_of q db)).
+  { apply map_ext_in. intros k Hk. f_equal. unfold l2_group_rows, group_rows. destruct (q_sel q) as [cols|aggs].
+    - cbv zeta. rewrite (plain_pipeline_refines_eval_lemma q cols (pl_parts pl k) (members q db k) (HP k Hk)). reflexivity.
+    - destruct (q_desc q) eqn:Hd.
+      + apply l2_agg_group_desc_lemma; auto.
+      + apply l2_agg_group_asc_lemma; auto. }
+  rewrite G. destruct (has_limit q); [|reflexivity].
+  f_equal. apply map_ext. intros g. now rewrite l2_limit_rows.
+Qed.
+
+Lemma agg_group_cur_irrelevant : forall q aggs ms,
+  (q_desc q && is_prev (q_fill q)) = false -> agg_group true q aggs ms = agg_group false q aggs ms.
+Proof.
+  intros q aggs ms H. unfold agg_group. cbv zeta.
+  destruct (q_interval q =? 0); [reflexivity|].
+  destruct (prefill_rows (q_interval q) (agg_cols_of q aggs ms)); [reflexivity|].
+  destruct (q_desc q); destruct (q_fill q); cbn [andb is_prev] in *; try reflexivity; discriminate.
+Qed.
+
+Lemma eval_gen_cur_irrelevant : forall db q,
+  (q_desc q && is_prev (q_fill q)) = false -> eval_gen true db q = eval_gen false db q.
+Proof.
+  intros db q H. unfold eval_gen.
+  assert (G : map (fun k => (k, group_rows true q (members q db k))) (keys_of q db) =
+              map (fun k => (k, group_rows false q (members q db k))) (keys_of q db)).
+  { apply map_ext. intros k. f_equal. unfold group_rows. destruct (q_sel q); [reflexivity|].
+    now apply agg_group_cur_irrelevant. }
+  now rewrite G.
+Qed.
